@@ -130,19 +130,32 @@ def resolve1(x: object, default: object = None) -> Any:
     return x
 
 
-def resolve_all(x: object, default: object = None) -> Any:
+def resolve_all(
+    x: object,
+    default: object = None,
+    _path: Tuple[int, ...] = (),
+) -> Any:
     """Recursively resolves the given object and all the internals.
 
     Make sure there is no indirect reference within the nested object.
     This procedure might be slow.
+
+    A reference to an object that is currently being resolved (e.g. a
+    /Parent entry pointing back up) is replaced by the default instead of
+    being followed forever.
     """
     while isinstance(x, PDFObjRef):
+        if x.objid in _path:
+            if settings.STRICT:
+                raise PDFValueError("Circular reference: %r" % x)
+            return default
+        _path = _path + (x.objid,)
         x = x.resolve(default=default)
     if isinstance(x, list):
-        x = [resolve_all(v, default=default) for v in x]
+        x = [resolve_all(v, default=default, _path=_path) for v in x]
     elif isinstance(x, dict):
         for k, v in x.items():
-            x[k] = resolve_all(v, default=default)
+            x[k] = resolve_all(v, default=default, _path=_path)
     return x
 
 
